@@ -448,7 +448,7 @@ func c07MutationPrograms(c *Ctx) []*c07Prog {
 			}
 		}
 	}
-	n := 60
+	n := 40
 	if c.Thorough {
 		n = 400
 	}
@@ -460,8 +460,73 @@ func c07MutationPrograms(c *Ctx) []*c07Prog {
 		}
 		progs = append(progs, p)
 		i++
+		// the same program with the calls of every pipeline written in reverse
+		// order: the compiler sorts calls topologically, so acceptance (and the
+		// rejection of every mutant) must not depend on the textual order
+		if rsrc, changed := c07ReverseCalls(src); changed {
+			c.Res.hist("mut_programs_reversed_call_order")
+			rp := &c07Prog{name: p.name + ":reversed-calls", src: rsrc, fname: "pipeline.mro", graph: true, origin: "gen"}
+			if _, err := rp.compile(rsrc); err != nil {
+				c.Res.violate(Violation{Kind: "property", Key: "C07:order-dependent-acceptance",
+					What:  "an accepted program is rejected when the calls of its pipelines are written in reverse order: " + firstLine(err.Error()),
+					Input: map[string]interface{}{"program": rsrc, "original": src, "error": err.Error()}})
+			} else {
+				progs = append(progs, rp)
+			}
+		}
 	}
 	return progs
+}
+
+// c07ReverseCalls reverses the blank-line separated call blocks of every
+// pipeline body (GenProgram layout: `{`, blocks starting with `    call` /
+// `    map call`, then `    return (`).
+func c07ReverseCalls(src string) (string, bool) {
+	lines := strings.Split(src, "\n")
+	var out []string
+	changed := false
+	for i := 0; i < len(lines); i++ {
+		out = append(out, lines[i])
+		if lines[i] != "{" {
+			continue
+		}
+		j := i + 1
+		for j < len(lines) && !strings.HasPrefix(lines[j], "    return (") && lines[j] != "}" {
+			j++
+		}
+		if j >= len(lines) || lines[j] == "}" {
+			continue
+		}
+		var blocks [][]string
+		var cur []string
+		ok := true
+		for _, l := range lines[i+1 : j] {
+			if l == "" {
+				if len(cur) > 0 {
+					blocks = append(blocks, cur)
+					cur = nil
+				}
+				continue
+			}
+			if len(cur) == 0 && !strings.HasPrefix(l, "    call ") && !strings.HasPrefix(l, "    map call ") {
+				ok = false
+			}
+			cur = append(cur, l)
+		}
+		if len(cur) > 0 {
+			blocks = append(blocks, cur)
+		}
+		if !ok || len(blocks) < 2 {
+			continue
+		}
+		for k := len(blocks) - 1; k >= 0; k-- {
+			out = append(out, blocks[k]...)
+			out = append(out, "")
+		}
+		changed = true
+		i = j - 1
+	}
+	return strings.Join(out, "\n"), changed
 }
 
 func c07MutationOracle(c *Ctx) {
